@@ -511,6 +511,7 @@ type GuardDecl struct {
 	Mode             string // guarded | atomic | immutable | confined
 	By               string // mutex field for guarded
 	Line             int
+	Tags             []string
 }
 
 type SpecFile struct {
@@ -521,6 +522,7 @@ type SpecFile struct {
 	Pures   []*PureFunc
 	Lemmas  []*Lemma
 	Guards  []*GuardDecl
+	Monotone []*GuardDecl
 	Lines   int
 	Assumes []string
 }
@@ -532,7 +534,7 @@ var clauseKinds = map[string]bool{
 }
 
 var topKinds = map[string]bool{"func": true, "loop": true, "pure": true, "predicate": true, "lemma": true,
-	"axiom": true, "ghost": true, "guarded": true, "atomic": true, "immutable": true, "confined": true, "lockorder": true, "note": true}
+	"axiom": true, "ghost": true, "guarded": true, "atomic": true, "immutable": true, "confined": true, "lockorder": true, "note": true, "monotone": true}
 
 func splitTags(head string) (kind string, tags []string, label string) {
 	kind = head
@@ -731,6 +733,16 @@ func ParseSpecFile(path, pkg string) (*SpecFile, error) {
 			}
 			sf.Lemmas = append(sf.Lemmas, &Lemma{Pkg: sf.Pkg, Name: strings.TrimSpace(it.rest[:i]), E: e, Text: it.rest[i+1:], Axiom: kind == "axiom", Tags: tags, Line: it.line, File: path})
 			curF, curL = nil, nil
+		case "monotone":
+			// monotone[Cxx] (*T).f : every store to the field writes a value >= the old one
+			for _, tgt := range strings.Split(strings.Fields(it.rest)[0], ",") {
+				i := strings.LastIndex(tgt, ".")
+				if i < 0 {
+					return nil, errf(it.line, "bad field reference %q", tgt)
+				}
+				sf.Monotone = append(sf.Monotone, &GuardDecl{Pkg: sf.Pkg, Recv: tgt[:i], Field: tgt[i+1:], Mode: "monotone", Line: it.line, Tags: tags})
+			}
+			curF, curL = nil, nil
 		case "guarded", "atomic", "immutable", "confined":
 			// guarded (*T).f by mu   |  atomic (*T).f
 			f := strings.Fields(it.rest)
@@ -871,4 +883,12 @@ func splitTopLevel(s string) []string {
 		out = append(out, t)
 	}
 	return out
+}
+
+// conjuncts flattens top-level && so that each conjunct becomes its own obligation.
+func conjuncts(e Expr) []Expr {
+	if b, ok := e.(*EBin); ok && b.Op == "&&" {
+		return append(conjuncts(b.L), conjuncts(b.R)...)
+	}
+	return []Expr{e}
 }
